@@ -9,5 +9,6 @@ for d in "$here"/../seeded/C*; do
   out=$(MUT_LINES=3 MUT_COLS=160 "$here/run_mutant.sh" $d/patch.diff $prop $tier 2>&1 | grep -v WARNING)
   rc=$(echo "$out" | grep -o 'rc=[0-9]*' | tail -1)
   cls=$(echo "$out" | grep -m1 'class:' | sed 's/^ *class: //')
+  if echo "$out" | grep -q PATCH_DOES_NOT_APPLY; then cls="PATCH_DOES_NOT_APPLY (re-base it: tools/refresh_patches.sh)"; fi
   echo "$id $prop $rc ${cls:-no violation}"
 done
